@@ -39,6 +39,18 @@ type St3 struct {
 	E error
 }
 
+// exported SafeValue fields rendered by a method, unexported (not interfaceable) strings
+type St4 struct {
+	L      UStrSafeValue
+	secret string
+}
+type St5 struct {
+	first string
+	L     UStrSafeValue
+	S     SvStr
+	tail  string
+}
+
 // ---------- scripted user types ----------
 // A script is looked up by ID; see script.go.
 
